@@ -56,6 +56,33 @@ pub fn take_chosen() -> Vec<ChosenCompaction> {
     CHOSEN.with(|v| std::mem::take(&mut *v.borrow_mut()))
 }
 
+thread_local! {
+    #[allow(clippy::type_complexity)]
+    static PROBE: RefCell<Option<Box<dyn FnMut(&'static str)>>> = const { RefCell::new(None) };
+}
+
+/// Install (or clear) an observer that the single-stepped loops call at labelled points *inside*
+/// a flush or compaction (e.g. after the memtable was rotated, before the manifest edit), on the
+/// thread that runs them.  The observer may read through the store's public API; it must not call
+/// anything that takes the compaction mutex.
+pub fn set_probe(f: Option<Box<dyn FnMut(&'static str)>>) {
+    PROBE.with(|p| *p.borrow_mut() = f);
+}
+
+/// Observer call-out (no-op unless a probe is installed on this thread).
+pub fn probe(tag: &'static str) {
+    let f = PROBE.with(|p| p.borrow_mut().take());
+    if let Some(mut f) = f {
+        f(tag);
+        PROBE.with(|p| {
+            let mut p = p.borrow_mut();
+            if p.is_none() {
+                *p = Some(f);
+            }
+        });
+    }
+}
+
 static EVENT_SEQ: AtomicU64 = AtomicU64::new(0);
 static EVENTS: Mutex<Vec<(u64, u64, &'static str, [u64; 3])>> = Mutex::new(Vec::new());
 static EVENTS_ON: AtomicU64 = AtomicU64::new(0);
